@@ -96,10 +96,19 @@ theorem assert_ff (k : List Stmt) : Equiv (.assertC .ff :: k) [.raise] := by
   have h : EquivS (.assertC .ff) .raise := by
     intro ω s r; rw [resS_assert, resS_raise]; simp [evalCond]
   exact (Equiv.cons h (Equiv.refl k)).trans (raise_drop k)
-theorem while_ff_drop (b k : List Stmt) : Equiv (.whileS .ff b :: k) k :=
-  skip_drop _ (by intro ω s r; rw [resS_while]; simp [evalCond]) k
-theorem for_empty_drop (b k : List Stmt) : Equiv (.forS .empty b :: k) k :=
-  skip_drop _ (by intro ω s r; exact resS_for_empty ω b s r) k
+/-- a loop that never runs is its `else` clause -/
+theorem while_ff_drop (b e k : List Stmt) : Equiv (.whileS .ff b e :: k) (e ++ k) := by
+  intro ω s r
+  rw [res_cons, res_append]
+  constructor
+  · rintro ⟨r1, h1, ht⟩; rw [resS_while] at h1; exact ⟨r1, by simpa [evalCond] using h1, ht⟩
+  · rintro ⟨r1, h1, ht⟩; exact ⟨r1, by rw [resS_while]; simpa [evalCond] using h1, ht⟩
+theorem for_empty_drop (b e k : List Stmt) : Equiv (.forS .empty b e :: k) (e ++ k) := by
+  intro ω s r
+  rw [res_cons, res_append]
+  constructor
+  · rintro ⟨r1, h1, ht⟩; rw [resS_for_empty] at h1; exact ⟨r1, h1, ht⟩
+  · rintro ⟨r1, h1, ht⟩; exact ⟨r1, by rw [resS_for_empty]; exact h1, ht⟩
 
 /-- whatever follows a statement that `is_blocking` reports is dead (delete_unreachable_code), by `blocking_sound` -/
 theorem blocking_drop (st : Stmt) (hb : blocks .none st = true) (k : List Stmt) : Equiv (st :: k) [st] := by
@@ -132,7 +141,8 @@ def stripLast : Stmt → List Stmt
   | .cont => []
   | .ite c b o => [.ite c (stripL b) (stripL o)]
   | .simple l => [.simple l] | .ret => [.ret] | .raise => [.raise] | .brk => [.brk]
-  | .assertC c => [.assertC c] | .whileS c b => [.whileS c b] | .forS it b => [.forS it b] | .withS b => [.withS b]
+  | .assertC c => [.assertC c] | .whileS c b e => [.whileS c b e] | .forS it b e => [.forS it b e] | .withS b => [.withS b]
+  | .tryS b hk hb f => [.tryS b hk hb f]
 def stripL : List Stmt → List Stmt
   | [] => []
   | x :: rest =>
@@ -244,9 +254,10 @@ theorem stripLast_le : ∀ x : Stmt, LoopLe [x] (stripLast x) ∧ LoopLe (stripL
   | .raise => by simp only [stripLast]; exact ⟨LoopLe.refl _, LoopLe.refl _⟩
   | .brk => by simp only [stripLast]; exact ⟨LoopLe.refl _, LoopLe.refl _⟩
   | .assertC c => by simp only [stripLast]; exact ⟨LoopLe.refl _, LoopLe.refl _⟩
-  | .whileS c b => by simp only [stripLast]; exact ⟨LoopLe.refl _, LoopLe.refl _⟩
-  | .forS it b => by simp only [stripLast]; exact ⟨LoopLe.refl _, LoopLe.refl _⟩
+  | .whileS c b e => by simp only [stripLast]; exact ⟨LoopLe.refl _, LoopLe.refl _⟩
+  | .forS it b e => by simp only [stripLast]; exact ⟨LoopLe.refl _, LoopLe.refl _⟩
   | .withS b => by simp only [stripLast]; exact ⟨LoopLe.refl _, LoopLe.refl _⟩
+  | .tryS b hk hb f => by simp only [stripLast]; exact ⟨LoopLe.refl _, LoopLe.refl _⟩
 theorem stripL_le : ∀ l : List Stmt, LoopLe l (stripL l) ∧ LoopLe (stripL l) l
   | [] => by simp only [stripL]; exact ⟨LoopLe.refl _, LoopLe.refl _⟩
   | [x] => by simp only [stripL]; exact stripLast_le x
@@ -280,16 +291,17 @@ def normS : Stmt → List Stmt → List Stmt
     | .unk id false => [.ite (.unk id false) (normL b k) (normL o k)]
     | .unk id true => [.ite (.unk id false) (normL o k) (normL b k)]
   | .withS b, k => .withS (normL b []) :: k
-  | .whileS c b, k =>
+  | .whileS c b e, k =>
     match c with
-    | .ff => k
-    | .tt => .whileS .tt (stripL (normL b [])) :: k
-    | .unk id neg => .whileS (.unk id neg) (stripL (normL b [])) :: k
-  | .forS it b, k =>
+    | .ff => normL e k
+    | .tt => .whileS .tt (stripL (normL b [])) (normL e []) :: k
+    | .unk id neg => .whileS (.unk id neg) (stripL (normL b [])) (normL e []) :: k
+  | .forS it b e, k =>
     match it with
-    | .empty => k
-    | .nonempty => .forS .nonempty (stripL (normL b [])) :: k
-    | .unk => .forS .unk (stripL (normL b [])) :: k
+    | .empty => normL e k
+    | .nonempty => .forS .nonempty (stripL (normL b [])) (normL e []) :: k
+    | .unk => .forS .unk (stripL (normL b [])) (normL e []) :: k
+  | .tryS b hk hb f, k => .tryS (normL b []) hk (normL hb []) (normL f []) :: k
 /-- normal form of `l ++ k`; whatever follows a statement whose own normal form `is_blocking` reports is dropped -/
 def normL : List Stmt → List Stmt → List Stmt
   | [], k => k
@@ -320,28 +332,39 @@ theorem normS_sound : ∀ (st : Stmt) (k : List Stmt), Equiv (st :: k) (normS st
     have h := normL_sound b []
     rw [List.append_nil] at h
     exact Equiv.cons (EquivS.withS h) (Equiv.refl k)
-  | .whileS .ff b, k => by simp only [normS]; exact while_ff_drop b k
-  | .whileS .tt b, k => by
+  | .whileS .ff b e, k => by simp only [normS]; exact (while_ff_drop b e k).trans (normL_sound e k)
+  | .whileS .tt b e, k => by
     simp only [normS]
     have h := normL_sound b []
-    rw [List.append_nil] at h
-    exact Equiv.cons (EquivS.whileS _ (h.loopEquiv.trans (stripL_loopEquiv _))) (Equiv.refl k)
-  | .whileS (.unk id neg) b, k => by
+    have he := normL_sound e []
+    rw [List.append_nil] at h he
+    exact Equiv.cons (EquivS.whileS _ (h.loopEquiv.trans (stripL_loopEquiv _)) he) (Equiv.refl k)
+  | .whileS (.unk id neg) b e, k => by
     simp only [normS]
     have h := normL_sound b []
-    rw [List.append_nil] at h
-    exact Equiv.cons (EquivS.whileS _ (h.loopEquiv.trans (stripL_loopEquiv _))) (Equiv.refl k)
-  | .forS .empty b, k => by simp only [normS]; exact for_empty_drop b k
-  | .forS .nonempty b, k => by
+    have he := normL_sound e []
+    rw [List.append_nil] at h he
+    exact Equiv.cons (EquivS.whileS _ (h.loopEquiv.trans (stripL_loopEquiv _)) he) (Equiv.refl k)
+  | .forS .empty b e, k => by simp only [normS]; exact (for_empty_drop b e k).trans (normL_sound e k)
+  | .forS .nonempty b e, k => by
     simp only [normS]
     have h := normL_sound b []
-    rw [List.append_nil] at h
-    exact Equiv.cons (EquivS.forS _ (h.loopEquiv.trans (stripL_loopEquiv _))) (Equiv.refl k)
-  | .forS .unk b, k => by
+    have he := normL_sound e []
+    rw [List.append_nil] at h he
+    exact Equiv.cons (EquivS.forS _ (h.loopEquiv.trans (stripL_loopEquiv _)) he) (Equiv.refl k)
+  | .forS .unk b e, k => by
     simp only [normS]
     have h := normL_sound b []
-    rw [List.append_nil] at h
-    exact Equiv.cons (EquivS.forS _ (h.loopEquiv.trans (stripL_loopEquiv _))) (Equiv.refl k)
+    have he := normL_sound e []
+    rw [List.append_nil] at h he
+    exact Equiv.cons (EquivS.forS _ (h.loopEquiv.trans (stripL_loopEquiv _)) he) (Equiv.refl k)
+  | .tryS b hk hb f, k => by
+    simp only [normS]
+    have h1 := normL_sound b []
+    have h2 := normL_sound hb []
+    have h3 := normL_sound f []
+    rw [List.append_nil] at h1 h2 h3
+    exact Equiv.cons (EquivS.tryS hk h1 h2 h3) (Equiv.refl k)
 theorem normL_sound : ∀ (l k : List Stmt), Equiv (l ++ k) (normL l k)
   | [], k => by simp only [normL, List.nil_append]; exact Equiv.refl k
   | st :: rest, k => by
@@ -362,9 +385,10 @@ def beqS : Stmt → Stmt → Bool
   | .ret, .ret => true | .raise, .raise => true | .brk, .brk => true | .cont, .cont => true
   | .assertC c, .assertC d => c == d
   | .ite c b o, .ite c' b' o' => c == c' && beqL b b' && beqL o o'
-  | .whileS c b, .whileS c' b' => c == c' && beqL b b'
-  | .forS i b, .forS i' b' => i == i' && beqL b b'
+  | .whileS c b e, .whileS c' b' e' => c == c' && beqL b b' && beqL e e'
+  | .forS i b e, .forS i' b' e' => i == i' && beqL b b' && beqL e e'
   | .withS b, .withS b' => beqL b b'
+  | .tryS b hk hb f, .tryS b' hk' hb' f' => hk == hk' && beqL b b' && beqL hb hb' && beqL f f'
   | _, _ => false
 def beqL : List Stmt → List Stmt → Bool
   | [], [] => true
@@ -383,35 +407,40 @@ theorem beqS_eq : ∀ (a b : Stmt), beqS a b = true → a = b
   | .ite c b o, .ite c' b' o', h => by
     simp [beqS] at h
     rw [h.1.1, beqL_eq b b' h.1.2, beqL_eq o o' h.2]
-  | .whileS c b, .whileS c' b', h => by
+  | .whileS c b e, .whileS c' b' e', h => by
     simp [beqS] at h
-    rw [h.1, beqL_eq b b' h.2]
-  | .forS i b, .forS i' b', h => by
+    rw [h.1.1, beqL_eq b b' h.1.2, beqL_eq e e' h.2]
+  | .forS i b e, .forS i' b' e', h => by
     simp [beqS] at h
-    rw [h.1, beqL_eq b b' h.2]
+    rw [h.1.1, beqL_eq b b' h.1.2, beqL_eq e e' h.2]
   | .withS b, .withS b', h => by
     simp [beqS] at h
     rw [beqL_eq b b' h]
+  | .tryS b hk hb f, .tryS b' hk' hb' f', h => by
+    simp [beqS] at h
+    rw [h.1.1.1, beqL_eq b b' h.1.1.2, beqL_eq hb hb' h.1.2, beqL_eq f f' h.2]
   | .simple _, .ret, h | .simple _, .raise, h | .simple _, .brk, h | .simple _, .cont, h | .simple _, .assertC _, h
-  | .simple _, .ite _ _ _, h | .simple _, .whileS _ _, h | .simple _, .forS _ _, h | .simple _, .withS _, h => by simp [beqS] at h
+  | .simple _, .ite _ _ _, h | .simple _, .whileS _ _ _, h | .simple _, .forS _ _ _, h | .simple _, .withS _, h | .simple _, .tryS _ _ _ _, h => by simp [beqS] at h
   | .ret, .simple _, h | .ret, .raise, h | .ret, .brk, h | .ret, .cont, h | .ret, .assertC _, h
-  | .ret, .ite _ _ _, h | .ret, .whileS _ _, h | .ret, .forS _ _, h | .ret, .withS _, h => by simp [beqS] at h
+  | .ret, .ite _ _ _, h | .ret, .whileS _ _ _, h | .ret, .forS _ _ _, h | .ret, .withS _, h | .ret, .tryS _ _ _ _, h => by simp [beqS] at h
   | .raise, .simple _, h | .raise, .ret, h | .raise, .brk, h | .raise, .cont, h | .raise, .assertC _, h
-  | .raise, .ite _ _ _, h | .raise, .whileS _ _, h | .raise, .forS _ _, h | .raise, .withS _, h => by simp [beqS] at h
+  | .raise, .ite _ _ _, h | .raise, .whileS _ _ _, h | .raise, .forS _ _ _, h | .raise, .withS _, h | .raise, .tryS _ _ _ _, h => by simp [beqS] at h
   | .brk, .simple _, h | .brk, .ret, h | .brk, .raise, h | .brk, .cont, h | .brk, .assertC _, h
-  | .brk, .ite _ _ _, h | .brk, .whileS _ _, h | .brk, .forS _ _, h | .brk, .withS _, h => by simp [beqS] at h
+  | .brk, .ite _ _ _, h | .brk, .whileS _ _ _, h | .brk, .forS _ _ _, h | .brk, .withS _, h | .brk, .tryS _ _ _ _, h => by simp [beqS] at h
   | .cont, .simple _, h | .cont, .ret, h | .cont, .raise, h | .cont, .brk, h | .cont, .assertC _, h
-  | .cont, .ite _ _ _, h | .cont, .whileS _ _, h | .cont, .forS _ _, h | .cont, .withS _, h => by simp [beqS] at h
+  | .cont, .ite _ _ _, h | .cont, .whileS _ _ _, h | .cont, .forS _ _ _, h | .cont, .withS _, h | .cont, .tryS _ _ _ _, h => by simp [beqS] at h
   | .assertC _, .simple _, h | .assertC _, .ret, h | .assertC _, .raise, h | .assertC _, .brk, h | .assertC _, .cont, h
-  | .assertC _, .ite _ _ _, h | .assertC _, .whileS _ _, h | .assertC _, .forS _ _, h | .assertC _, .withS _, h => by simp [beqS] at h
+  | .assertC _, .ite _ _ _, h | .assertC _, .whileS _ _ _, h | .assertC _, .forS _ _ _, h | .assertC _, .withS _, h | .assertC _, .tryS _ _ _ _, h => by simp [beqS] at h
   | .ite _ _ _, .simple _, h | .ite _ _ _, .ret, h | .ite _ _ _, .raise, h | .ite _ _ _, .brk, h | .ite _ _ _, .cont, h
-  | .ite _ _ _, .assertC _, h | .ite _ _ _, .whileS _ _, h | .ite _ _ _, .forS _ _, h | .ite _ _ _, .withS _, h => by simp [beqS] at h
-  | .whileS _ _, .simple _, h | .whileS _ _, .ret, h | .whileS _ _, .raise, h | .whileS _ _, .brk, h | .whileS _ _, .cont, h
-  | .whileS _ _, .assertC _, h | .whileS _ _, .ite _ _ _, h | .whileS _ _, .forS _ _, h | .whileS _ _, .withS _, h => by simp [beqS] at h
-  | .forS _ _, .simple _, h | .forS _ _, .ret, h | .forS _ _, .raise, h | .forS _ _, .brk, h | .forS _ _, .cont, h
-  | .forS _ _, .assertC _, h | .forS _ _, .ite _ _ _, h | .forS _ _, .whileS _ _, h | .forS _ _, .withS _, h => by simp [beqS] at h
+  | .ite _ _ _, .assertC _, h | .ite _ _ _, .whileS _ _ _, h | .ite _ _ _, .forS _ _ _, h | .ite _ _ _, .withS _, h | .ite _ _ _, .tryS _ _ _ _, h => by simp [beqS] at h
+  | .whileS _ _ _, .simple _, h | .whileS _ _ _, .ret, h | .whileS _ _ _, .raise, h | .whileS _ _ _, .brk, h | .whileS _ _ _, .cont, h
+  | .whileS _ _ _, .assertC _, h | .whileS _ _ _, .ite _ _ _, h | .whileS _ _ _, .forS _ _ _, h | .whileS _ _ _, .withS _, h | .whileS _ _ _, .tryS _ _ _ _, h => by simp [beqS] at h
+  | .forS _ _ _, .simple _, h | .forS _ _ _, .ret, h | .forS _ _ _, .raise, h | .forS _ _ _, .brk, h | .forS _ _ _, .cont, h
+  | .forS _ _ _, .assertC _, h | .forS _ _ _, .ite _ _ _, h | .forS _ _ _, .whileS _ _ _, h | .forS _ _ _, .withS _, h | .forS _ _ _, .tryS _ _ _ _, h => by simp [beqS] at h
   | .withS _, .simple _, h | .withS _, .ret, h | .withS _, .raise, h | .withS _, .brk, h | .withS _, .cont, h
-  | .withS _, .assertC _, h | .withS _, .ite _ _ _, h | .withS _, .whileS _ _, h | .withS _, .forS _ _, h => by simp [beqS] at h
+  | .withS _, .assertC _, h | .withS _, .ite _ _ _, h | .withS _, .whileS _ _ _, h | .withS _, .forS _ _ _, h | .withS _, .tryS _ _ _ _, h => by simp [beqS] at h
+  | .tryS _ _ _ _, .simple _, h | .tryS _ _ _ _, .ret, h | .tryS _ _ _ _, .raise, h | .tryS _ _ _ _, .brk, h | .tryS _ _ _ _, .cont, h
+  | .tryS _ _ _ _, .assertC _, h | .tryS _ _ _ _, .ite _ _ _, h | .tryS _ _ _ _, .whileS _ _ _, h | .tryS _ _ _ _, .forS _ _ _, h | .tryS _ _ _ _, .withS _, h => by simp [beqS] at h
 theorem beqL_eq : ∀ (a b : List Stmt), beqL a b = true → a = b
   | [], [], _ => rfl
   | a :: as, b :: bs, h => by
